@@ -17,7 +17,7 @@ for e in json.load(open(sys.argv[1])):
             "demonstration": {"file": e['demo'], "copy_into": e['copy_into'], "command": ("go test -vet=off -count=1 %s %s" % (run, e['pkg'])).replace("  ", " ")},
             "confirmed": {"how": ("tools/seed_verify.sh %s seeded/%s/patch.diff seeded/%s/%s %s %s %s" % (e['label'], e['label'], e['label'], e['demo'], e['copy_into'], e['pkg'], run)).strip(),
                           "base_commit": e.get('base', ''), "builds": True, "existing_suite_passes_with_change": True, "demo_fails_with_change": True, "demo_passes_without_change": True},
-            "checks_run": {"command": "tools/mutant.sh seeded/%s/patch.diff %s" % (e['label'], e.get('check', e['property'])), "result": "exit 1, VIOLATION", "first_violation_key": e['key']},
+            "checks_run": {"command": "tools/pmutant.sh seeded/%s/patch.diff %s" % (e['label'], e.get('check', e['property'])), "result": "exit 1, VIOLATION", "first_violation_key": e['key']},
             "initially_missed": e['missed'], "strengthening": e.get('strengthening', '')}
     json.dump(meta, open(d + '/meta.json', 'w'), indent=1)
 subprocess.run([sys.executable, os.path.join(V, 'tools', 'seed_readme.py')], cwd=V)
